@@ -4,7 +4,7 @@ import math
 import numpy as np
 from hypothesis import strategies as st
 
-from ..common import Violation, Discard, call, EPS, sigma_max, recorded_warnings
+from ..common import Violation, Discard, call, EPS, sigma_max, recorded_warnings, safe_norm
 from ..hyp import drive
 from .. import estimators as E, gen
 
@@ -14,7 +14,8 @@ RULE = ('per estimator: model descriptor x pool of 2-8 query points (coordinates
         'array preprocessor}. Views compared: pair_distance, get_metric (plain, squared), '
         '||transform(u)-transform(v)||, sqrt((u-v)^T M (u-v)), score_pairs, and a long-double reference '
         '||L(u-v)||. Non-trivial = u != v and non-zero distance; distinct by (model, pool, pair).')
-ASSUMPTIONS = ['agreement within 64 eps * sigma_max(L) * sqrt(d) * scale, scale = |u-v| for difference-based '
+ASSUMPTIONS = ['absolute slack 1e-150 on distances (1e-300 on squared distances): squares of coordinates below ~1e-154 underflow',
+               'agreement within 64 eps * sigma_max(L) * sqrt(d) * scale, scale = |u-v| for difference-based '
                'views and |u|+|v| for the transform-then-subtract view; the M view is compared on squared distances',
                'representation variants are compared with the same bound (semantic equality), not bitwise']
 
@@ -70,7 +71,7 @@ def check_c02(case, stats):
   if T.shape != (len(pool), k):
     raise Violation('C02/transform-shape/' + name, '%s, expected %s' % (T.shape, (len(pool), k)))
   Tref = pool.astype(np.longdouble).dot(L.astype(np.longdouble).T).astype(float)
-  bound_pts = 64 * EPS * smax * rt * np.linalg.norm(pool, axis=1, keepdims=True) + 1e-300
+  bound_pts = 64 * EPS * smax * rt * safe_norm(pool, axis=1, keepdims=True) + 1e-150
   if (np.abs(T - Tref) > bound_pts).any():
     raise Violation('C02/transform-is-XLt/' + name, 'max dev %g' % np.abs(T - Tref).max())
   metric = call('C02/get_metric', est.get_metric)
@@ -93,7 +94,7 @@ def check_c02(case, stats):
     variants[case['dtype']] = formed.astype(case['dtype'])
   for vn, arr in variants.items():
     out = np.asarray(call('C02/pair_distance[%s]/%s' % (vn, name), est.pair_distance, arr))
-    bnd = 8 * EPS * smax * rt * np.linalg.norm(formed[:, 0] - formed[:, 1], axis=1) + 1e-300
+    bnd = 8 * EPS * smax * rt * safe_norm(formed[:, 0] - formed[:, 1], axis=1) + 1e-150
     if out.shape != pd.shape or (np.abs(out - pd) > bnd).any():
       raise Violation('C02/representation/%s/%s' % (vn, name), 'pair_distance %s vs %s' % (out, pd))
     stats.classes['repr:' + vn] += 1
@@ -106,9 +107,9 @@ def check_c02(case, stats):
   for j, (a, b) in enumerate(idx):
     u, v = pool[a], pool[b]
     diff = u - v
-    nd = float(np.linalg.norm(diff))
+    nd = float(safe_norm(diff))
     ref = float(np.sqrt(((Lq.dot(diff.astype(np.longdouble))) ** 2).sum()))
-    bnd = 64 * EPS * smax * rt * nd + 1e-300
+    bnd = 64 * EPS * smax * rt * nd + 1e-150
     single = float(np.asarray(call('C02/pair_distance-single/' + name, est.pair_distance, formed[j:j + 1]))[0])
     gm = float(call('C02/get_metric()/' + name, metric, u, v))
     gsq = float(call('C02/get_metric(squared)/' + name, metric, u, v, squared=True))
@@ -120,8 +121,8 @@ def check_c02(case, stats):
         raise Violation('C02/view/%s/%s' % (vn, name), '%r vs reference %r (bound %g)' % (val, ref, bnd))
     if not abs(gsq - ref ** 2) <= 128 * EPS * d * (smax * nd) ** 2 + 1e-300:
       raise Violation('C02/view/get_metric-squared/' + name, '%r vs reference^2 %r' % (gsq, ref ** 2))
-    tdist = float(np.linalg.norm(T[a] - T[b]))
-    if not abs(tdist - ref) <= 64 * EPS * smax * rt * (np.linalg.norm(u) + np.linalg.norm(v)) + 1e-300:
+    tdist = float(safe_norm(T[a] - T[b]))
+    if not abs(tdist - ref) <= 64 * EPS * smax * rt * (safe_norm(u) + safe_norm(v)) + 1e-150:
       raise Violation('C02/view/transform-distance/' + name, '%r vs %r' % (tdist, ref))
     dq = diff.astype(np.longdouble)
     msq = float(dq.dot(M.astype(np.longdouble)).dot(dq))
